@@ -400,7 +400,7 @@ void ref_decode(const uint8_t* b, size_t n, size_t L, uint64_t alloc_cap, void (
 }
 
 /* ------------------------------------------------------------------ reference encoder */
-static size_t put_head(uint8_t* out, size_t cap, size_t o, uint8_t mt, uint64_t v, int force_w /*0=shortest*/) {
+size_t ref_put_head(uint8_t* out, size_t cap, size_t o, uint8_t mt, uint64_t v, int force_w /*0=shortest*/) {
   uint8_t tmp[9];
   size_t l;
   int w = force_w;
@@ -424,11 +424,11 @@ static size_t enc(const rnode* t, uint8_t* out, size_t cap, size_t o, bool* bad)
   switch (t->kind) {
     case RK_UINT:
     case RK_NEGINT:
-      o += put_head(out, cap, o, t->kind == RK_UINT ? 0 : 1, t->val, t->width);
+      o += ref_put_head(out, cap, o, t->kind == RK_UINT ? 0 : 1, t->val, t->width);
       break;
     case RK_BYTES:
     case RK_TEXT:
-      o += put_head(out, cap, o, t->kind == RK_BYTES ? 2 : 3, t->len, 0);
+      o += ref_put_head(out, cap, o, t->kind == RK_BYTES ? 2 : 3, t->len, 0);
       for (size_t i = 0; i < t->len; i++)
         if (o + i < cap) out[o + i] = t->bytes[i];
       o += t->len;
@@ -442,11 +442,11 @@ static size_t enc(const rnode* t, uint8_t* out, size_t cap, size_t o, bool* bad)
       o++;
       break;
     case RK_ARRAY:
-      o += put_head(out, cap, o, 4, t->nkids, 0);
+      o += ref_put_head(out, cap, o, 4, t->nkids, 0);
       for (size_t i = 0; i < t->nkids; i++) o += enc(t->kids[i], out, cap, o, bad);
       break;
     case RK_MAP:
-      o += put_head(out, cap, o, 5, t->nkids / 2, 0);
+      o += ref_put_head(out, cap, o, 5, t->nkids / 2, 0);
       for (size_t i = 0; i < t->nkids; i++) o += enc(t->kids[i], out, cap, o, bad);
       break;
     case RK_ARRAY_INDEF:
@@ -458,7 +458,7 @@ static size_t enc(const rnode* t, uint8_t* out, size_t cap, size_t o, bool* bad)
       o++;
       break;
     case RK_TAG:
-      o += put_head(out, cap, o, 6, t->val, 0);
+      o += ref_put_head(out, cap, o, 6, t->val, 0);
       if (t->nkids != 1) {
         *bad = true;
         break;
@@ -467,7 +467,7 @@ static size_t enc(const rnode* t, uint8_t* out, size_t cap, size_t o, bool* bad)
       break;
     case RK_SIMPLE:
       if (t->val >= 24 && t->val <= 31) *bad = true;
-      o += put_head(out, cap, o, 7, t->val, t->val <= 23 ? -1 : 8);
+      o += ref_put_head(out, cap, o, 7, t->val, t->val <= 23 ? -1 : 8);
       break;
     case RK_FLOAT: {
       uint64_t bits;
@@ -480,7 +480,7 @@ static size_t enc(const rnode* t, uint8_t* out, size_t cap, size_t o, bool* bad)
         bits = t->isnan ? 0x7fc00000u : t->val;
       else
         bits = t->isnan ? 0x7ff8000000000000ull : t->val;
-      o += put_head(out, cap, o, 7, bits, w);
+      o += ref_put_head(out, cap, o, 7, bits, w);
       break;
     }
   }
